@@ -78,6 +78,10 @@ def scopes_of(src, tree, ids):
         fi.free.add(n)
       elif s.is_global():
         fi.implicit_globals.add(n)
+    # CPython >= 3.12 inlines list/set/dict comprehensions (PEP 709) and its symtable then lists
+    # their iteration variables as locals of the enclosing function; by the language semantics
+    # they are local to the comprehension, so they are not expected among the function's names
+    fi.locals -= _comprehension_only_names(fnode)
     infos[fnode] = fi
     # child function tables in source order match FunctionDef nodes in source order
     kids = [c for c in tab.get_children() if c.get_type() == 'function' and c.get_name() != 'lambda'
@@ -95,6 +99,37 @@ def scopes_of(src, tree, ids):
   for c, n in zip(tabs, tops):
     walk(c, n, None)
   return infos
+
+
+def _comprehension_only_names(fnode):
+  """Names bound in fnode's own scope ONLY as iteration variables of comprehensions."""
+  comp, other = set(), set()
+
+  def rec(n, in_comp):
+    for ch in ast.iter_child_nodes(n):
+      if isinstance(ch, (ast.FunctionDef, ast.AsyncFunctionDef, ast.ClassDef)):
+        other.add(ch.name)
+        continue
+      if isinstance(ch, ast.Lambda):
+        continue
+      if isinstance(ch, (ast.ListComp, ast.SetComp, ast.DictComp, ast.GeneratorExp)):
+        rec(ch, True)
+        continue
+      if isinstance(ch, ast.Name) and isinstance(ch.ctx, (ast.Store, ast.Del)):
+        (comp if in_comp else other).add(ch.id)
+      elif isinstance(ch, ast.NamedExpr) and isinstance(ch.target, ast.Name):
+        other.add(ch.target.id)        # walrus binds in the enclosing function even inside a comprehension
+        rec(ch.value, in_comp)
+        continue
+      elif isinstance(ch, ast.ExceptHandler) and ch.name:
+        other.add(ch.name)
+      elif isinstance(ch, ast.alias):
+        other.add((ch.asname or ch.name).split('.')[0])
+      rec(ch, in_comp)
+
+  rec(fnode, False)
+  other |= set(a.arg for a in ast.walk(fnode.args) if isinstance(a, ast.arg))
+  return comp - other
 
 
 def _direct_function_defs(fnode):
@@ -276,16 +311,17 @@ class Instrumenter(object):
                     body=body, orelse=I.block(s.orelse, fi) if s.orelse else [])
       return [I.C(s), new]
     if isinstance(s, ast.With):
-      items = []
-      ws = []
-      for it in s.items:
-        items.append(ast.withitem(
+      # `with A as r, B(r):` is `with A as r: with B(r):` - one nested With per item, so
+      # that the write of `r` is recorded before the next item's expression reads it
+      body = I.block(s.body, fi)
+      for it in reversed(s.items):
+        item = ast.withitem(
             context_expr=_call('cm', _c(I.ids[it]), _lam(I.expr(it.context_expr, fi))),
-            optional_vars=it.optional_vars))
+            optional_vars=it.optional_vars)
         if it.optional_vars is not None:
-          ws.append(I.W(it, _store_names(it.optional_vars)))
-      body = ws + I.block(s.body, fi)
-      return [ast.With(items=items, body=body)]
+          body = [I.W(it, _store_names(it.optional_vars))] + body
+        body = [ast.With(items=[item], body=body)]
+      return body
     if isinstance(s, ast.Try):
       handlers = []
       for h in s.handlers:
@@ -534,6 +570,22 @@ def activation_streams(rt):
   return acts
 
 
+def _next_statement_nodes(cn):
+  """Successors of a CFG node, looking through the nodes malt adds for lambda EXPRESSIONS:
+  `h = lambda v: v` is two nodes (the Lambda, then the Assign); creating the function object
+  is part of executing the statement and has no event of its own in the trace."""
+  out, todo, seen = set(), list(cn.next), set()
+  while todo:
+    n = todo.pop()
+    if id(n) in seen:
+      continue
+    seen.add(id(n))
+    out.add(n)
+    if isinstance(n.ast_node, ast.Lambda):
+      todo.extend(n.next)
+  return out
+
+
 def check_c05(S, rt, how):
   """Trace is a path of the CFG. Returns list of failure dicts."""
   fails = []
@@ -576,7 +628,7 @@ def check_c05(S, rt, how):
           pass
         elif skip_edge:
           skip_edge = False
-        elif prev is not None and cn not in prev.next:
+        elif prev is not None and cn not in _next_statement_nodes(prev):
           fails.append({'kind': 'missing_edge', 'from': _txt(S, S.ids[prev.ast_node]) if prev.ast_node in S.ids else '?',
                         'to': _txt(S, nid), 'from_id': S.ids.get(prev.ast_node), 'to_id': nid})
         if not exempt:
@@ -984,6 +1036,8 @@ def c08_side_conditions(S):
   for fid, F in S.fn.items():
     fi = F['info']
     node = F['node']
+    if fi is None:
+      continue      # methods of a class defined inside f: class bodies are not functions, not compared
     sc = anno.getanno(node, annos.NodeAnno.ARGS_AND_BODY_SCOPE)
     exc_names = set(h.name for h in ast.walk(node) if isinstance(h, ast.ExceptHandler) and h.name)
     names = lambda qs: set(str(q) for q in qs if not q.is_composite())
